@@ -1014,6 +1014,8 @@ class ConnectionBase(object):
 
         self.bitfield_pkt = BitField(32)
         self.bitfield_msg = BitField(256)
+        # fragment ids of recently completed fragmented messages
+        self.bitfield_frag = BitField(256)
 
         self.outgoing_timeout = 1.0
         self.temp_connection_timeout = 2.0
@@ -1451,6 +1453,13 @@ class ConnectionBase(object):
 
         frag_id, index, count, msg = FragmentSender.parsePayload(fragment)
 
+        # fragments that are not acked in time are sent again using a
+        # new message sequence number. ignore the fragments of a message
+        # that was already completed and delivered
+        if self.bitfield_frag.current_seqnum != 0 and \
+           self.bitfield_frag.contains(SeqNum(frag_id)):
+            return
+
         # for the first fragment received from a message,
         # create a context object to store all fragments
         if frag_id not in self.received_fragments:
@@ -1464,6 +1473,10 @@ class ConnectionBase(object):
             receiver = self.received_fragments[frag_id]
             self._recvApp(receiver.msgseq, receiver.payload())
             del self.received_fragments[frag_id]
+            try:
+                self.bitfield_frag.insert(SeqNum(frag_id))
+            except DuplicationError:
+                pass
 
         # remove expired fragments
         # these are likely a result of duplicate packets being received after
